@@ -151,11 +151,22 @@ theorem getMeta_signal_other (s : MState) (k k' : Bytes) (h : k ≠ k') : getMet
   | none => rfl
   | some m => exact getMeta_putMeta_other s k k' _ h
 
-theorem getMeta_delKey_same (s : MState) (k : Bytes) (h : IndexSorted s) : getMeta (delKey s k) k = none :=
-  get?_erase_same s.index h k
+/-- `unpersist` only touches the backend -/
+theorem unpersist_index (s : MState) (k : Bytes) (m : Meta) : (unpersist s k m).index = s.index := by
+  unfold unpersist
+  split <;> rfl
 
-theorem getMeta_delKey_other (s : MState) (k k' : Bytes) (h : k ≠ k') : getMeta (delKey s k') k = getMeta s k :=
-  get?_erase_other s.index k' k h
+theorem delKey_index (s : MState) (k : Bytes) : (delKey s k).index = AList.erase s.index k := by
+  unfold delKey
+  split
+  · simp only [unpersist_index]
+  · rfl
+
+theorem getMeta_delKey_same (s : MState) (k : Bytes) (h : IndexSorted s) : getMeta (delKey s k) k = none := by
+  unfold getMeta; rw [delKey_index]; exact get?_erase_same s.index h k
+
+theorem getMeta_delKey_other (s : MState) (k k' : Bytes) (h : k ≠ k') : getMeta (delKey s k') k = getMeta s k := by
+  unfold getMeta; rw [delKey_index]; exact get?_erase_other s.index k' k h
 
 theorem markModified_isOk (m : Meta) : m.markModified.isOk = m.isOk := by
   simp only [Meta.markModified, Meta.isOk]
@@ -355,7 +366,10 @@ theorem getMeta_newKeyWith_other (s : MState) (key : Bytes) (old : Option Meta) 
   unfold newKeyWith fresh
   simp only
   rw [getMeta_putMeta_other _ _ _ _ h]
-  rfl
+  unfold getMeta
+  split
+  · rw [unpersist_index]
+  · rfl
 
 theorem getMeta_writeKey_other (s : MState) (now : Int) (key : Bytes) (mk : Option Val) (k : Bytes) (h : k ≠ key) :
     getMeta (writeKey s now key mk).1 k = getMeta s k := by
